@@ -182,13 +182,40 @@ theorem C05_derva_slice (v : View) (a : Addr) (size align len : Nat) (ref : Ref)
     v.dervaSlice a size align len = .ok ref ↔
       size * len < 18446744073709551616 ∧ ∃ s, v.at a (size * len) align = .ok s ∧ ref = ⟨s.off, size * len, align⟩ := by
   unfold View.dervaSlice
-  by_cases ho : size * len ≥ 18446744073709551616
-  · rw [if_pos ho]
+  by_cases hz : a.isZero = true
+  · -- a zero address: Null before anything else (and `at` says Null as well)
+    rw [if_pos hz]
+    have hn : v.at a (size * len) align = .err .null := by
+      cases a with
+      | rva r => simp [Addr.isZero] at hz; subst hz; exact (C05_null v _ _).1
+      | va x => simp [Addr.isZero] at hz; subst hz; exact (C05_null v _ _).2
     constructor
     · intro h; cases h
-    · intro h; omega
-  · rw [if_neg ho]
-    cases h : v.at a (size * len) align <;> simp [eq_comm] <;> omega
+    · rintro ⟨_, s, hs, _⟩; rw [hn] at hs; cases hs
+  · rw [if_neg hz]
+    by_cases ho : size * len ≥ 18446744073709551616
+    · rw [if_pos ho]
+      constructor
+      · intro h; cases h
+      · intro h; omega
+    · rw [if_neg ho]
+      cases h : v.at a (size * len) align <;> simp [eq_comm] <;> omega
+
+/-- "A zero address always yields the null error": every typed read, whatever the element size, length,
+sentinel or alignment (for the fixed-length array this needed a repair of the Rust code: the length
+overflow check used to come first). -/
+theorem C05_null_typed (v : View) (size align len sentinel : Nat) :
+    (v.derva (.rva 0) size align = .err .null ∧ v.derva (.va 0) size align = .err .null) ∧
+    (v.dervaCopy (.rva 0) size = .err .null ∧ v.dervaCopy (.va 0) size = .err .null) ∧
+    (v.dervaInto (.rva 0) len = .err .null ∧ v.dervaInto (.va 0) len = .err .null) ∧
+    (v.dervaSlice (.rva 0) size align len = .err .null ∧ v.dervaSlice (.va 0) size align len = .err .null) ∧
+    (v.dervaSliceS (.rva 0) size align sentinel = .err .null ∧ v.dervaSliceS (.va 0) size align sentinel = .err .null) ∧
+    (v.dervaCStr (.rva 0) = .err .null ∧ v.dervaCStr (.va 0) = .err .null) ∧
+    (v.dervaWStr (.rva 0) = .err .null ∧ v.dervaWStr (.va 0) = .err .null) := by
+  have h1 := fun m a => (C05_null v m a).1
+  have h2 := fun m a => (C05_null v m a).2
+  simp [View.derva, View.dervaCopy, View.dervaInto, View.dervaSlice, View.dervaSliceS, View.dervaSliceF,
+    View.dervaCStr, View.dervaWStr, Addr.isZero, h1, h2]
 
 /-- Sentinel-terminated array: the elements before the FIRST element equal to the sentinel, and the
 sentinel itself lies inside the slice; if the slice ends first the read fails with `Bounds` — never a
